@@ -391,6 +391,40 @@ func (ri *RegexInfo) matchFacts(s, a, b string) string {
 	return and(fs...)
 }
 
+// Uninterpreted "matches" / "group k" functions per pattern literal. They let contracts
+// and spec functions talk about the real regexp's verdict: the model of the regexp
+// methods asserts `result != nil <=> rematch_L(s)` and `result[k] == regroup_L_k(s)`.
+func (w *World) regexUF(lit string) string {
+	if id, ok := w.regexIDs[lit]; ok {
+		return id
+	}
+	id := fmt.Sprintf("re%d", len(w.regexIDs))
+	w.regexIDs[lit] = id
+	return id
+}
+
+func (w *World) regexUFDecls(text string) string {
+	var b strings.Builder
+	var lits []string
+	for lit := range w.regexIDs {
+		lits = append(lits, lit)
+	}
+	sortStrings(lits)
+	for _, lit := range lits {
+		id := w.regexIDs[lit]
+		if !strings.Contains(text, "rematch_"+id) && !strings.Contains(text, "regroup_"+id) {
+			continue
+		}
+		fmt.Fprintf(&b, "; pattern %q\n(declare-fun rematch_%s (Str) Bool)\n", lit, id)
+		ri := w.regexInfo(lit)
+		for k := 0; k <= ri.NumSubexp; k++ {
+			fmt.Fprintf(&b, "(declare-fun regroup_%s_%d (Str) Str)\n", id, k)
+			fmt.Fprintf(&b, "(assert (forall ((s Str)) (! (=> (wfstr s) (wfstr (regroup_%s_%d s))) :pattern ((regroup_%s_%d s)))))\n", id, k, id, k)
+		}
+	}
+	return b.String()
+}
+
 // trRegexpMethod models methods of *regexp.Regexp whose pattern literal is known.
 func (fc *FnCtx) trRegexpMethod(st *State, call *ast.CallExpr, fn *types.Func, recvExpr ast.Expr) ([]Val, bool) {
 	lit, ok := fc.regexLiteralOf(recvExpr)
@@ -408,7 +442,7 @@ func (fc *FnCtx) trRegexpMethod(st *State, call *ast.CallExpr, fn *types.Func, r
 	fc.regexUsed[lit] = true
 	switch fn.Name() {
 	case "MatchString", "Match":
-		m := fc.declare("re_match", SBool)
+		m := "(rematch_" + fc.w.regexUF(lit) + " " + args[0].T + ")"
 		a := fc.declare("re_a", SInt)
 		b := fc.declare("re_b", SInt)
 		st.addAssume(implies(m, ri.matchFacts(args[0].T, a, b)))
@@ -417,14 +451,21 @@ func (fc *FnCtx) trRegexpMethod(st *State, call *ast.CallExpr, fn *types.Func, r
 		loc := fc.freshVal(st, "re_loc", SIL, nil)
 		a := "(select (ints " + loc.T + ") 0)"
 		b := "(select (ints " + loc.T + ") 1)"
+		st.addAssume("(= (not (= (illen " + loc.T + ") 0)) (rematch_" + fc.w.regexUF(lit) + " " + args[0].T + "))")
 		st.addAssume("(or (= (illen " + loc.T + ") 0) (and (= (illen " + loc.T + ") 2) " + ri.matchFacts(args[0].T, a, b) + "))")
 		return []Val{loc}, true
 	case "FindStringSubmatch", "FindSubmatch":
 		ms := fc.freshVal(st, "re_sub", SSL, nil)
 		a := fc.declare("re_a", SInt)
 		b := fc.declare("re_b", SInt)
+		id := fc.w.regexUF(lit)
+		var groups []string
+		for k := 0; k <= ri.NumSubexp; k++ {
+			groups = append(groups, fmt.Sprintf("(= (sat_ %s %d) (regroup_%s_%d %s))", ms.T, k, id, k, args[0].T))
+		}
+		st.addAssume("(= (not (= (sllen " + ms.T + ") 0)) (rematch_" + id + " " + args[0].T + "))")
 		st.addAssume("(or (= (sllen " + ms.T + ") 0) (and (= (sllen " + ms.T + ") " + fmt.Sprint(ri.NumSubexp+1) + ") " +
-			ri.matchFacts(args[0].T, a, b) + " (= (sat_ " + ms.T + " 0) (substr " + args[0].T + " " + a + " " + b + "))))")
+			ri.matchFacts(args[0].T, a, b) + " (= (sat_ " + ms.T + " 0) (ssub " + args[0].T + " " + a + " " + b + ")) " + strings.Join(groups, " ") + "))")
 		return []Val{ms}, true
 	}
 	return nil, false
